@@ -107,6 +107,18 @@ CLAIMED: dict[str, tuple[str, str, str, str, str]] = {
         "of executions of the real code are decided against that specification, with /proc/self/fd as an independent leak oracle.",
         "Trusted: TLC; the recording socket subclass injected through the resolver module's socket alias (driver process only).",
     ),
+    "C04": (
+        "model_checking",
+        "TLA+ spec SendAll (sendmsg loop with IOV_MAX slicing + adjust_leftover_buffer, join+send loop, _retry time budget) model-checked by "
+        "TLC (safety, termination, per-iteration progress); every socket call and wait of the real transports/endpoint against a scripted "
+        "socket+selector+clock logged and validated by TLC against SendAllTrace (spin guard => rejected trace); asyncio adapter checked for exact "
+        "wire content under kernel partial writes and for prompt close",
+        "DESIGN.md section 4 (C04)",
+        "TLC proves on the model that the wire is always a prefix of the packet, exact on return, that the call terminates and every loop "
+        "iteration makes progress, for chunk sequences with empty chunks in any position; thousands of executions of the real code under scripted "
+        "partial writes / EAGAIN / EINTR / selector results are decided against that specification event by event.",
+        "Trusted: TLC; the scripted socket (a send of n>0 bytes accepts >=1 byte or raises EAGAIN/EINTR). TLS send loops are checked under C08.",
+    ),
 }
 
 NOT_YET = "check not built yet in this revision of /verif (planned: see DESIGN.md section 0); not claimed until its check exists"
